@@ -214,6 +214,11 @@ class Check:
             plan["script"].append(step)
         return plan
 
+    # ---- execution ----------------------------------------------------------------------
+    def run_world(self, plan, run_plan):
+        """execute the plan (checks that compare two executions override this)"""
+        return run_plan(plan, self.resolvers)
+
     # ---- judge --------------------------------------------------------------------------
     def spec_of(self, plan, result, cid):
         return result["clients"][cid]["spec"]
